@@ -2,6 +2,12 @@ module verif/harness
 
 go 1.13
 
-require github.com/honeytrap/honeytrap v0.0.0
+require (
+	github.com/BurntSushi/toml v0.3.0
+	github.com/Logicalis/asn1 v0.0.0-20160307192209-c9c836c1a3cd
+	github.com/honeytrap/honeytrap v0.0.0
+	github.com/op/go-logging v0.0.0-20160211212156-b2cb9fa56473
+	golang.org/x/time v0.0.0-20191024005414-555d28b269f0
+)
 
 replace github.com/honeytrap/honeytrap => /repo
